@@ -4,6 +4,30 @@ Job steps, part 7: `rotSetMeta` (the commit of a rotation) and `rotRemove`.
 -/
 namespace GoLevel.Dur
 
+/-- once `SetMeta` has made the new manifest current no clause of the job looks at the ghost edit: it is cleared -/
+theorem JobOK.clear_limbo_rotRemove {cfg : Cfg} {s : St} {d : Disk} {j : Job} (h : JobOK cfg s d j) {m : Nat}
+    (hpc : j.pc = .rotRemove m) : JobOK cfg { s with limbo := none } d j := by
+  obtain ⟨j1, j2, j3, j4, j5, j6, j7, j8, j9, j10, j11, j12⟩ := h
+  have hbc : j.pc.beforeCommit = false := by rw [hpc]; rfl
+  refine ⟨j1, j2.transport rfl rfl rfl rfl rfl rfl rfl rfl rfl rfl rfl rfl (fun hb => hb) rfl rfl (fun _ => rfl), ?_,
+    ⟨j4.1, fun hb => by rw [hbc] at hb; cases hb⟩, j5, j6, j7,
+    j8.transport (Nat.le_refl _) rfl rfl rfl Iff.rfl, ?_, j10, ?_, j12⟩
+  · unfold JobManifestOK at j3 ⊢
+    cases he : j.edit with
+    | none =>
+      have := j10 he
+      rw [hpc] at this; cases this
+    | some e =>
+      rw [he] at j3
+      simp only [hpc, JobManifest] at j3 ⊢
+      exact j3
+  · refine j9.imp (fun v _ => ?_)
+    unfold RemovalsOK
+    rw [hpc]
+    trivial
+  · exact Holds'.imp (o := j.edit) j11 (fun e he0 => he0.transport rfl rfl (fun _ => rfl) (fun hb => hb)
+      (fun _ => rfl) (fun _ _ _ => rfl))
+
 theorem inv_job_rotSetMeta {cfg : Cfg} (hg : cfg.Good) {s : St} {d : Disk} (h : Inv cfg s d) {j : Job}
     (hj : s.job = some j) {m : Nat} (hpc : j.pc = .rotSetMeta m) {rot : Bool}
     {s' : St} {d' : Disk} (hs : stepJob cfg s d j rot .ok = some (s', d')) : Inv cfg s' d' := by
@@ -15,8 +39,7 @@ theorem inv_job_rotSetMeta {cfg : Cfg} (hg : cfg.Good) {s : St} {d : Disk} (h : 
   simp only [Option.some.injEq, Prod.mk.injEq] at hs
   obtain ⟨rfl, rfl⟩ := hs
   have hnr : ∀ m, j.pc ≠ .rotRemove m := by rw [hpc]; intro m hm; cases hm
-  have hfd := (h.mfd hj).fd hj hnr
-  obtain ⟨hsett, hmc, hmlt, hlk⟩ := hok.rot_facts he (m := m)
+  obtain ⟨hsett, ⟨hmc, hcm'⟩, hmlt, hlk⟩ := hok.rot_facts he (m := m)
     (P := Holds (lookup d.manifests m) fun mf => Holds mf.synced.head? fun r =>
       mf = ⟨[{ snapshotRec cfg s e with nf := r.nf }], []⟩ ∧ m < r.nf ∧ r.nf ≤ s.nextFile ∧
       (∀ t ∈ applyEdit s.live e, t < r.nf) ∧ e.jn.getD s.stJn < r.nf) (by rw [hpc]; rfl)
@@ -28,22 +51,15 @@ theorem inv_job_rotSetMeta {cfg : Cfg} (hg : cfg.Good) {s : St} {d : Disk} (h : 
   generalize hx : r1.nf = x at *
   have hbc : j.pc.beforeCommit = true := by rw [hpc]; rfl
   have hlate : j.pc ≠ .mkJournal ∧ j.pc.tablesDone = true := by rw [hpc]; exact ⟨(by intro x; cases x), rfl⟩
-  obtain ⟨mf, v0, v, hparts, hlv, hvl, hed, hvok', hmono'⟩ := h.commit_view hj he hbc hlate
+  obtain ⟨mf, v0, hparts, hvok', hmono', hjnle, hsqcap, hjcur, _, _⟩ := h.commit_view' hj he hbc hlate
   have hcur := hparts.cur
   have hph := h.not_crashed hj
   have hb := h.bounds hph
-  -- the session mirrors the last view
-  unfold Settled at hsett
-  obtain ⟨_, hmir⟩ := holds_some hsett hcur
-  rw [hlv] at hmir
-  obtain ⟨m1, m2, m3⟩ : Mirror s v := hmir
-  -- so the snapshot's view is the view after the edit
+  -- the snapshot's view is the session's view after the edit
   have hsv : viewAt cfg ⟨[{ snapshotRec cfg s e with nf := x }], []⟩ 0 =
-      some ⟨applyEdit v.live e, e.jn.getD v.jn, e.sq.getD v.sq, x⟩ := by
-    rw [snapshot_view' cfg hg, m1, m2, m3]
-  let v' : MView := ⟨applyEdit v.live e, e.jn.getD v.jn, e.sq.getD v.sq, x⟩
-  have hvok'' : ViewOK d (must s) (issuedGrps s) v' :=
-    hvok'.with_nf (by rw [m1]; exact hr1c) (by rw [m2]; exact hr1d)
+      some ⟨applyEdit s.live e, e.jn.getD s.stJn, e.sq.getD s.stSq, x⟩ := snapshot_view' cfg hg s e x
+  let v' : MView := ⟨applyEdit s.live e, e.jn.getD s.stJn, e.sq.getD s.stSq, x⟩
+  have hvok'' : ViewOK d (must s) (issuedGrps s) v' := hvok'.with_nf hr1c hr1d
   let j' : Job := { j with pc := .rotRemove m }
   let d1 : Disk := { d with current := some m }
   have hcur1 : curManifest d1 = some ⟨[{ snapshotRec cfg s e with nf := x }], []⟩ := by
@@ -54,12 +70,12 @@ theorem inv_job_rotSetMeta {cfg : Cfg} (hg : cfg.Good) {s : St} {d : Disk} (h : 
     rw [hcur1]
     simp only [Option.bind_some, List.length_nil]
     exact hsv
-  have hmfd' : MfdOK { s with job := some j' } d1 := by
+  have hmfd' : MfdOK { s with job := some j', limbo := none } d1 := by
     unfold MfdOK
     simp only [Option.map_some]
     rfl
-  have hmono := hed.mono
-  have hjn : v.jn ≤ e.jn.getD v.jn := hmono.1
+  have hshape := hok.shape
+  rw [he] at hshape
   constructor
   · exact h.disk.set_meta hlk rfl hsv hvok'' (fun mf1 v01 hc1 hv01 => by
       rw [hcur] at hc1; cases hc1
@@ -68,67 +84,104 @@ theorem inv_job_rotSetMeta {cfg : Cfg} (hg : cfg.Good) {s : St} {d : Disk} (h : 
   · exact ManifestMono.single (d := d1) (m := m) hcur1 rfl rfl hsv hr1a
   · intro _
     apply ViewBounds.single hcur1 rfl hsv
-    exact ⟨hmono.2.2.1, hr1b, hmono.2.2.2.1⟩
+    refine ⟨?_, hr1b, hjcur⟩
+    rw [seqHi_post (s := { s with job := some j', limbo := none }) (j := j') rfl rfl]
+    exact hsqcap
   · intro hr
     have hrun := h.run hr
-    rw [goto_eq]
-    apply RunOK.job_step (d' := d1) hrun j' s.nextFile s.live s.stJn s.stSq s.manifestFd s.manifestOpen
-      (Nat.le_refl _) rfl ⟨hmfd', hrun.mfd.2⟩ hmlt (hrun.hnc_post (j' := j') hok hj hr rfl rfl (fun hk => by
-        rw [hlv1, hlv]
-        obtain ⟨a, b⟩ := (hok.edit_nums he).1 hk
-        simp only [Holds, a, b, Option.getD_none, Nat.le_refl, and_self, v']))
-    rw [hcur1]
-    simp only [Holds, hsv, hcur, hparts.hv0]
-    exact hmono'
+    have := RunOK.job_step_lb (d' := d1) hrun j' s.nextFile s.live s.stJn s.stSq s.manifestFd s.manifestOpen none
+      (Nat.le_refl _) rfl ⟨hmfd', hrun.mfd.2⟩ hmlt
+      (hrun.hnc_post (j' := j') (nf' := s.nextFile) (l' := s.live) (a' := s.stJn) (b' := s.stSq)
+        (m' := s.manifestFd) (o' := s.manifestOpen) hok hj hr rfl rfl (fun _ => ⟨rfl, rfl⟩))
+      (by
+        rw [hcur1]
+        simp only [Holds, hsv, hcur, hparts.hv0]
+        exact hmono')
+      (LimboOK.of_none rfl)
+    exact this
   · intro hr
     have hrec := h.recov hr
     rw [holds_iff] at hrec
     obtain ⟨r, hrs, hrr⟩ := hrec
     refine holds_of_some (o := s.recov) hrs ?_
-    rw [goto_eq]
-    apply RecOK.job_step (d' := d1) hrr j' s.nextFile s.live s.stJn s.stSq s.manifestFd s.manifestOpen
-      (Nat.le_refl _) rfl hmfd' hmlt (fun hb' => by cases hb')
-    · rw [hlv1, hlv]
-      exact hjn
-    · rw [hlv1]
-      simp only [Holds]
-      have := h.todo_ge_edit hj he hrs hr
-      show ∀ n ∈ r.todo, e.jn.getD v.jn ≤ n
-      rw [hok.jn_getD (by rw [hr]; decide) he]
-      exact this
+    have hl : s.limbo = none := h.limbo_none_of_recovering (by rw [hr]; decide)
+    have hmir := h.mirror_nolimbo hj hbc hl
+    obtain ⟨_, _, v, _, hlv, _, _, _⟩ := h.disk.last
+    rw [hlv] at hmir
+    obtain ⟨_, m2, _⟩ : Mirror s v := hmir
+    have hstep := RecOK.job_step (d' := d1) hrr j' s.nextFile s.live s.stJn s.stSq s.manifestFd s.manifestOpen
+      (Nat.le_refl _) rfl (by
+        show MfdOK (s.upd j' s.nextFile s.live s.stJn s.stSq s.manifestFd s.manifestOpen) d1
+        unfold MfdOK
+        simp only [St.upd, Option.map_some]
+        rfl) hmlt (fun hb' => by cases hb')
+      (by
+        rw [hlv1, hlv]
+        show v.jn ≤ e.jn.getD s.stJn
+        rw [m2]
+        exact hjnle)
+      (by
+        rw [hlv1]
+        simp only [Holds]
+        have := h.todo_ge_edit hj he hrs hr
+        show ∀ n ∈ r.todo, e.jn.getD s.stJn ≤ n
+        have hjg := hok.jn_getD (by rw [hr]; decide) he (x := s.stJn)
+        rw [hjg]
+        exact this)
+    have es : ({ s with job := some j', limbo := none } : St) =
+        s.upd j' s.nextFile s.live s.stJn s.stSq s.manifestFd s.manifestOpen := by
+      cases s
+      simp only [St.upd]
+      simp_all
+    rw [es]
+    exact hstep
   · intro hcr; exact absurd hcr hph
   · show JobOK cfg _ _ j'
-    rw [goto_eq]
-    apply JobOK.late_next (d' := d1) hok hlate j' ⟨rfl, rfl, rfl, rfl, rfl⟩ ⟨(by intro x; cases x), rfl⟩
+    have hjob := JobOK.late_next (d' := d1) hok hlate j' ⟨rfl, rfl, rfl, rfl, rfl⟩ ⟨(by intro x; cases x), rfl⟩
       s.nextFile s.live s.stJn s.stSq s.manifestFd s.manifestOpen (Nat.le_refl _) rfl (fun _ => rfl) hok.one.2
-    · unfold JobManifestOK
-      show match j.edit with
-        | some e => JobManifest cfg _ _ e (.rotRemove m)
-        | none => _
-      rw [he]
-      simp only [JobManifest]
-      refine ⟨rfl, ?_, ?_⟩
-      · show s.manifestFd ≠ some m
-        rw [hfd]
-        exact fun hc => hmc hc.symm
-      · rw [hcur1]
-        simp only [Holds, true_and]
+      (by
+        unfold JobManifestOK
+        show match j.edit with
+          | some e => JobManifest cfg _ _ e (.rotRemove m)
+          | none => _
+        rw [he]
+        simp only [JobManifest]
+        refine ⟨rfl, ?_, ?_⟩
+        · show s.manifestFd ≠ some m
+          have hm := h.mfd hj
+          unfold MfdOK at hm
+          rw [hj] at hm
+          simp only [Option.map_some, hpc] at hm
+          rcases hm with hm | ⟨_, hm⟩
+          · rw [hm]; exact fun hc => hmc hc.symm
+          · intro hfd
+            rw [hfd] at hm
+            cases hc : d.current with
+            | none => rw [hc] at hm; exact hm
+            | some c =>
+              rw [hc] at hm hcm'
+              have h1 : m < c := hm
+              have h2 : c < m := hcm'
+              omega
+        · rw [hcur1]
+          simp only [Holds, true_and]
+          rw [hlv1]
+          exact ⟨rfl, rfl, rfl⟩)
+      (by intro hb'; cases hb')
+      (by
         rw [hlv1]
-        exact ⟨by show applyEdit v.live e = applyEdit s.live e; rw [m1],
-          by show e.jn.getD v.jn = e.jn.getD s.stJn; rw [m2],
-          by show e.sq.getD v.sq = e.sq.getD s.stSq; rw [m3]⟩
-    · intro hb'; cases hb'
-    · rw [hlv1]
-      simp only [Holds]
-      exact late_not_rm (j := j') ⟨(by intro l x; cases x), (by intro l x; cases x), (by intro l x; cases x)⟩
-    · intro hn; rw [he] at hn; cases hn
-    · exact fun _ => rfl
-    · exact fun _ => rfl
-    · intro _
-      rw [hlv1]
-      intro o ho
-      refine ⟨mem_applyEdit.2 (Or.inr ?_), hok.outs_on_disk hbc hlate.2 o ho⟩
-      rw [hed.shape.1]
-      exact List.mem_map.2 ⟨o, ho, rfl⟩
+        simp only [Holds]
+        exact late_not_rm (j := j') ⟨(by intro l x; cases x), (by intro l x; cases x), (by intro l x; cases x)⟩)
+      (by intro hn; rw [he] at hn; cases hn)
+      (fun _ => rfl) (fun _ => rfl)
+      (by
+        intro _
+        rw [hlv1]
+        intro o ho
+        refine ⟨mem_applyEdit.2 (Or.inr ?_), hok.outs_on_disk hbc hlate.2 o ho⟩
+        rw [hshape.1]
+        exact List.mem_map.2 ⟨o, ho, rfl⟩)
+    -- the ghost edit is cleared: no clause of the job at `rotRemove` looks at it
+    exact hjob.clear_limbo_rotRemove (m := m) rfl
 
 end GoLevel.Dur
